@@ -3,7 +3,7 @@ Model/Stats.lean — executable model of pyrepseq/stats.py coincidence statistic
 exact rational arithmetic; Python's float division is modelled over ℚ).
 
   pc_n      → pcN          pc (one sample) → pc1        pc (two samples) → pc2
-  varpc_n   → varpcN       (stdpc_n = sqrt, not modelled: C06_std_sq states the square)
+  varpc_n   → varpcN       (stdpc_n = its real square root: Proofs/FormulasStd, C06_source_stdpc_n)
   np.unique(return_counts) → counts (order of first occurrence; pc is order independent)
 -/
 import Prs.Model.Search
